@@ -338,7 +338,8 @@ int parse_directives(AsmContext *asm_context)
       return -1;
     }
 
-    return 0;
+    // End of a conditional block (the block's assemble() returns).
+    return 5;
   }
     else
   if (strcmp(token, "else") == 0)
